@@ -60,6 +60,9 @@ class ActionContext(abc.ABC):
         # every action collects into its own variable table, so its ids never point into another action's table
         self.var_cache = VariableCacheProvider()
         self._collection_config = VariableProcessorConfig()
+        # the variable cache identifies objects by id(): values created by evaluating a watch, log field or condition
+        # are kept alive while this action runs, else a later temporary can reuse the address of an earlier one
+        self._evaluated = []
 
     @property
     def collection_config(self) -> VariableProcessorConfig:
@@ -97,6 +100,7 @@ class ActionContext(abc.ABC):
 
         try:
             result = self.trigger_context.evaluate_expression(watch)
+            self._evaluated.append(result)
             variable_id, log_str = var_processor.process_variable(watch, result)
             if variable_id.vid is None:
                 # the variable limit was reached before this value could be collected
